@@ -906,7 +906,7 @@ func ParseBranchStmt(p *ParserZH) *syntax.BranchStmt {
 	mainIndent := p.getCurrIndent()
 	var hState = stateInit
 
-	for p.peek().Type != TypeEOF {
+	for hState == stateInit || p.peek().Type != TypeEOF {
 		// parse header
 		switch hState {
 		case stateInit:
